@@ -25,7 +25,7 @@ ASSUMPTIONS = ["termination and in-bounds are THEOREMS only for the modelled ker
                "out-of-bounds reads in interpreted mode wrap silently: they are caught indirectly, by the other properties' "
                "exact correspondence with models in which an out-of-range read returns a default value",
                "compiled (JIT) execution is out of scope (C07 not applicable); NUMBA_BOUNDSCHECK is therefore not used"]
-MUST_OK = {"region_bounds_ids", "basin_bounds_ids", "index_top_left", "add_pits_dup_use", "add_pits_dup_xy_use", "from_array_ldd_out", "from_array_d8_out", "from_array_d8", "from_array_nextxy", "from_array_infer"}       # valid arguments: any exception is a failure
+MUST_OK = {"vector_class_starts", "pfafstetter_upa_min_none", "region_bounds_ids", "basin_bounds_ids", "index_top_left", "add_pits_dup_use", "add_pits_dup_xy_use", "from_array_ldd_out", "from_array_d8_out", "from_array_d8", "from_array_nextxy", "from_array_infer"}       # valid arguments: any exception is a failure
 # arguments outside the documented domain: the documented ValueError / IndexError is the only acceptable outcome (points
 # exactly on the right / bottom edge of the raster lie outside its half-open cells: round-5 seed)
 MUST_RAISE = {"bad_shape", "bad_index", "bad_unit", "bad_direction", "index_right_edge", "index_bottom_edge", "path_xy_right_edge", "basins_xy_bottom_edge"}
@@ -103,6 +103,8 @@ def _build_ops(nr, nc, ds, rng):
         ("basin_bounds", lambda f: f.basin_bounds()),
         ("subbasins_streamorder", lambda f: f.subbasins_streamorder(min_sto=1)), ("subbasins_streamorder_hi", lambda f: f.subbasins_streamorder(min_sto=99)),
         ("subbasins_area", lambda f: f.subbasins_area(3)), ("subbasins_area_big", lambda f: f.subbasins_area(10**6)),
+        # upa_min=None is a value the method itself tests for ("if upa_min is not None"): no minimum area (defect fixed after 2739d00)
+        ("pfafstetter_upa_min_none", lambda f: f.subbasins_pfafstetter(depth=1, upa_min=None)),
         ("subbasins_pfafstetter", lambda f: f.subbasins_pfafstetter(depth=1)), ("subbasins_pfafstetter2", lambda f: f.subbasins_pfafstetter(depth=2, upa_min=0)),
         ("path_down", lambda f: f.path(idxs=I["starts"])), ("path_up", lambda f: f.path(idxs=I["starts"], direction="up")),
         ("path_len0", lambda f: f.path(idxs=I["starts"], max_length=0)), ("path_m", lambda f: f.path(idxs=I["starts"], max_length=50.0, unit="m")),
@@ -156,6 +158,7 @@ def _build_ops(nr, nc, ds, rng):
         ("set_transform", lambda f: f.set_transform(f.transform, latlon=True)),
         ("dump_load", lambda f: _dump_load(f)),
         ("vector_class", lambda f: _vector(Flwdir, f, I)),
+        ("vector_class_starts", lambda f: _vector_starts(Flwdir, f, I)),
         ("from_array_d8", lambda f: pyflwdir.from_array(f.to_array("d8"))), ("from_array_nextxy", lambda f: pyflwdir.from_array(f.to_array("nextxy"), ftype="nextxy")),
         ("from_array_ldd_out", lambda f: pyflwdir.from_array(I["ldd_out"], ftype="ldd")), ("from_array_d8_out", lambda f: pyflwdir.from_array(I["d8_out"], ftype="d8")),
         ("from_array_infer", lambda f: pyflwdir.from_array(f.to_array("ldd"), ftype="infer")),
@@ -223,6 +226,16 @@ def _vector(Flwdir, f, I):
     v = Flwdir(f.idxs_ds.copy(), area=I["full"].ravel().astype(np.float32))
     return (v.rank, v.upstream_area(), v.stream_order(), v.path(idxs=v.idxs_pit[:1], direction="up"), v.moving_average(I["data"].ravel(), 1),
             v.accuflux(I["full"].ravel()), v.dem_adjust(I["elv"].ravel()), v.fillnodata(I["data"].ravel(), -9999), v.smooth_rivlen(I["full"].ravel(), 3.0))
+
+
+def _vector_starts(Flwdir, f, I):
+    """start nodes of the 1-D vector class given as array_like (a list, an int), and pits snapped to stream nodes"""
+    v = Flwdir(f.idxs_ds.copy())
+    p0 = int(v.idxs_pit[0])
+    r = (v.path(idxs=[p0], direction="up"), v.path(idxs=p0), v.path(idxs=np.array([p0])))
+    start = int(v.idxs_seq[-1])
+    v.add_pits(idxs=[start], streams=I["mask"].ravel())
+    return r, v.idxs_pit
 
 
 def impl(case):
